@@ -2,7 +2,9 @@
 // libc, Directory::create truthfulness and recursive unlink containment on random trees with links to outside locations.
 // modes: paths-str (all strings over "a./\b" up to length `scale`), paths-comp (component grammar), paths-rel (pairs for getRelativePath),
 //        paths-rand (random longer names), files (operation histories + failpoints), files-alias (the same histories, every path argument
-//        in one of 8 spellings of the same directory entry, plus a sweep of failing calls on a missing name), trees (random trees, create/unlink)
+//        in one of 8 spellings of the same directory entry, plus a sweep of failing calls on a missing name), trees (random trees, create/unlink),
+//        create-race (Directory::create with another "process" - played by the libc shims - creating/removing directories between its system calls, every
+//        call position enumerated), create-threads (really concurrent Directory::create calls on overlapping paths)
 // Entry names: 3 cases in 4 of mode trees (3 in 8 of files / files-alias) use names that start with one, two or more dots ("..data", "...", "..a3", ".hidden", ".. 1") for
 // files, directories, symbolic links, FIFOs and hard links next to ordinary names: such names are ordinary entries, only "." and ".." themselves are special.
 #include "vh.hpp"
@@ -818,6 +820,229 @@ static void treeCases() {
   }
 }
 
+// =================================================================================================== create-race: a racing creator / remover between the system calls of Directory::create
+// The libc shims call racePre() immediately before every stat/lstat/access/opendir/mkdir/rmdir/unlink the library makes; before the k-th such call of one
+// Directory::create the hook itself plays the other process: it creates the very path that call is about to look at / make, or the whole target, or a (shared) missing
+// parent, or places a regular file there, or removes an empty directory again. Every scenario is run once undisturbed (that counts the calls, n) and then once per
+// (action, k) with k = 1..n on a freshly built state. The oracle stays the statement's: result == "the argument is a directory afterwards"; while the interferer only
+// ever adds directories on the way to the target a creatable target must still be reported (and be) created.
+enum { RA_SAME, RA_TARGET, RA_PARENT, RA_FIRST, RA_FILE, RA_RM_PARENT, RA_RM_SAME, RA_N };
+static const char* const RACT[] = { "creates-that-path", "creates-the-target", "creates-the-parent-of-that-path", "creates-the-first-missing-component", "places-a-file-at-that-path",
+                                    "removes-the-parent-of-that-path", "removes-that-path" };
+struct Race { int act; long k; const char* target; const char* first; bool fired; int firedFn; long steps; char file[700]; Text trace; };
+static Race g_race;
+
+// mkdir -p through libc; number of directories made
+static int mkdirP(const char* p) {
+  char b[700]; size_t n = strlen(p); if (!n || n >= sizeof b) return 0; memcpy(b, p, n + 1); int made = 0;
+  for (size_t i = 1; i <= n; ++i) if (b[i] == '/' || b[i] == 0) { char c = b[i]; b[i] = 0; if (mkdir(b, 0755) == 0) ++made; b[i] = c; }
+  return made;
+}
+// libc-style parent of p ("a/b/" -> "a", "a" -> none)
+static bool parentOf(const char* p, char* out, size_t cap) {
+  size_t n = strlen(p); while (n > 1 && p[n - 1] == '/') --n;
+  while (n > 0 && p[n - 1] != '/') --n;
+  while (n > 1 && p[n - 1] == '/') --n;
+  if (!n || n >= cap) return false;
+  memcpy(out, p, n); out[n] = 0; return true;
+}
+static void racePre(int t, const char* p, long step) {
+  g_race.steps = step;
+  if (g_race.act < 0 || step != g_race.k) return;
+  bool changed = false; char b[700];
+  switch (g_race.act) {
+  case RA_SAME: changed = mkdirP(p) > 0; break;
+  case RA_TARGET: changed = mkdirP(g_race.target) > 0; break;
+  case RA_PARENT: changed = parentOf(p, b, sizeof b) && mkdirP(b) > 0; break;
+  case RA_FIRST: changed = g_race.first[0] && mkdir(g_race.first, 0755) == 0; break;
+  case RA_FILE: { size_t n = strlen(p); while (n > 1 && p[n - 1] == '/') --n; if (n < sizeof b) { memcpy(b, p, n); b[n] = 0; int fd = open(b, O_WRONLY | O_CREAT | O_EXCL, 0644); if (fd >= 0) { close(fd); changed = true; snprintf(g_race.file, sizeof g_race.file, "%s", b); } } break; }
+  case RA_RM_PARENT: changed = parentOf(p, b, sizeof b) && rmdir(b) == 0; break;
+  default: changed = rmdir(p) == 0; break;
+  }
+  g_race.trace.addf("        <another process %s: %s>\n", RACT[g_race.act], changed ? "done" : "nothing to do");
+  if (changed) { g_race.fired = true; g_race.firedFn = t; }
+}
+static void racePost(int t, const char* p, long step, int ret, int err) {
+  g_race.trace.addf("     #%ld %s(\"%s\") = %d%s%s\n", step, fsshim::tracedName(t), p, ret, ret ? " " : "", ret ? strerror(err) : "");
+}
+
+static void createRaceCases() {
+  fsshim::setPrefix(scratch::root);
+  char kbuf[300];
+  static const char* const SHAPE[] = { "plain", "absolute", "symlinked-base", "trailing-separator", "dot-components", "double-separator" };
+  static const char* const OBST[] = { "all-missing", "target-exists", "file-in-the-way", "dangling-link-in-the-way" };
+  for (long idx = opts.start; idx < opts.start + opts.cases; ++idx) {
+    if (!mine(idx)) continue;
+    beginCase(idx);
+    Rng r(opts.seed, 1907, (u64)idx);
+    char caseRoot[200]; snprintf(caseRoot, sizeof caseRoot, "%s/R%ld", scratch::root, idx); scratch::rmrf(caseRoot);
+    if (mkdir(caseRoot, 0700) != 0) harnessBug("case root %s: %s", caseRoot, strerror(errno));
+    char w[240]; snprintf(w, sizeof w, "%s/w", caseRoot);
+    // ---- scenario
+    int baseDepth = (int)r.below(3), m = r.chance(1, 8) ? 4 : (int)r.range(1, 3), shape = (int)r.below(6), obst = 0, obstAt = 0;
+    { u64 c = r.below(20); if (c >= 14 && c < 16) obst = 1; else if (c >= 16 && c < 19) obst = 2; else if (c == 19) obst = 3; }
+    if (shape == 2 && baseDepth == 0) baseDepth = 1;
+    if (obst >= 2) obstAt = (int)r.below((u64)m);
+    bool dotty = r.chance(1, 2);
+    static const char* const CDOT[] = { "", "", "..", ".", "...", ".. " };
+    char comp[4][24]; for (int i = 0; i < m; ++i) snprintf(comp[i], sizeof comp[i], "%s%c%d", CDOT[dotty ? r.below(6) : 0], "nmkj"[i], (int)r.below(10));
+    const char* sep = shape == 5 ? "//" : "/";
+    char base[64] = "", baseArg[64] = ""; // physical base chain / its spelling in the argument
+    if (baseDepth >= 1) { strcpy(base, "d0"); if (baseDepth == 2) strcat(base, "/d1"); }
+    if (shape == 2) strcpy(baseArg, baseDepth == 2 ? "ln/d1" : "ln"); else strcpy(baseArg, base);
+    char relArg[400] = "", phys[4][400];   // phys[i] = physical path (relative to w) of missing component i
+    { Text a; if (baseArg[0]) { a.add(baseArg); a.add(sep); }
+      for (int i = 0; i < m; ++i) {
+        if (i) a.add(sep);
+        if (shape == 4 && i == 1) a.add("./");
+        if (shape == 4 && i == m - 1 && m >= 2 && obst == 0) { a.addf("%sq%s..%s", comp[i], sep, sep); }   // "<comp>q/../<comp>": a detour through a sibling that does not exist yet either (only when nothing is in the way: the sibling is a missing parent, too)
+        a.add(comp[i]);
+        snprintf(phys[i], sizeof phys[i], "%s%s%s", i ? phys[i - 1] : base, (i || base[0]) ? "/" : "", comp[i]);
+      }
+      if (shape == 3) a.add("/");
+      snprintf(relArg, sizeof relArg, "%s", a.c()); }
+    bool strict = obst <= 1 && shape <= 2;   // every existing prefix is a directory and the spelling is plain: must succeed as long as nobody removes anything
+    char cls[96]; snprintf(cls, sizeof cls, "%s,%s", OBST[obst], SHAPE[shape]);
+    hist.addf("# create-race case in %s/w (cwd, rebuilt before every trial): base \"%s\"%s, %d missing component(s), %s\n", caseRoot, base, shape == 2 ? " reached through the symbolic link ln -> d0" : "", m, cls);
+    size_t mark = hist.n; long n = 0; u64 fp = mix((u64)(baseDepth * 100 + m * 10 + shape), (u64)obst); long firedHere = 0;
+    // the trial directory w: keep/ + keep/f (sentinel nobody may touch), the base chain, the obstacle; rebuilt (idempotently) before every trial and compared with its first snapshot
+    if (mkdir(w, 0700) != 0 || chdir(w) != 0) harnessBug("trial directory %s: %s", w, strerror(errno));
+    if (mkdir("keep", 0755) != 0) harnessBug("mkdir keep");
+    { int fd = open("keep/f", O_WRONLY | O_CREAT, 0644); if (fd < 0 || write(fd, "sentinel", 8) != 8) harnessBug("keep/f"); close(fd); }
+    const char* made = obst == 0 ? phys[0] : "";   // new directories may appear at or below the first missing component only
+    Vec<Ent> pristine, before, after;
+    for (int act = -1; act < RA_N; ++act) {
+      for (long k = 1; k <= (act < 0 ? 1 : n); ++k) {
+        if (act >= RA_FILE && n > 3 && !r.chance(3, (u32)n)) continue;   // creators of directories: every call position; file / removers: about three positions per case
+        // ---- fresh state
+        hist.n = mark; if (hist.d) hist.d[hist.n] = 0;
+        if (chdir(w) != 0) harnessBug("chdir");
+        if (made[0]) { char mp[700]; snprintf(mp, sizeof mp, "%s/%s", w, made); scratch::rmrf(mp); }
+        if (base[0]) mkdirP(base);
+        if (shape == 2 && symlink("d0", "ln") != 0 && errno != EEXIST) harnessBug("symlink ln");
+        if (obst == 1) mkdirP(phys[m - 1]);
+        else if (obst == 2) { if (obstAt) mkdirP(phys[obstAt - 1]); int fd = open(phys[obstAt], O_WRONLY | O_CREAT, 0644); if (fd < 0) harnessBug("obstacle file %s: %s", phys[obstAt], strerror(errno)); close(fd); }
+        else if (obst == 3) { if (obstAt) mkdirP(phys[obstAt - 1]); if (symlink("no/such/target", phys[obstAt]) != 0 && errno != EEXIST) harnessBug("obstacle link"); }
+        char arg[700]; if (shape == 1) snprintf(arg, sizeof arg, "%s/%s", w, relArg); else snprintf(arg, sizeof arg, "%s", relArg);
+        snapshot(w, before);
+        if (act < 0) { snapshot(w, pristine); }
+        else { bool same = before.n == pristine.n; for (size_t i = 0; same && i < before.n; ++i) same = !strcmp(before[i].path, pristine[i].path) && before[i].type == pristine[i].type && before[i].size == pristine[i].size && before[i].h == pristine[i].h; if (!same) harnessBug("create-race: the state before trial (%s, #%ld) differs from the state before the undisturbed run", RACT[act], k); }
+        // ---- the call
+        g_race.act = act; g_race.k = k; g_race.target = arg; g_race.first = made; g_race.fired = false; g_race.firedFn = -1; g_race.steps = 0; g_race.file[0] = 0; g_race.trace.clear();
+        if (act < 0) setctxf("Directory.create/%s,race=none", cls); else setctxf("Directory.create/%s,race=%s", cls, RACT[act]);
+        hist.addf("Directory::create(\"%s\")", arg); if (act >= 0) hist.addf("   [before system call #%ld of this call another process %s]", k, RACT[act]); hist.add("\n");
+        fsshim::setStepHook(racePre, racePost);
+        bool ret = Directory::create(String(arg, strlen(arg)));
+        fsshim::clearStepHook();
+        hist.add(g_race.trace.c()); hist.addf("   = %s\n", ret ? "true" : "false");
+        if (act < 0) { n = g_race.steps; statMax("max_system_calls_per_create", n); cnt("race_undisturbed_runs"); }
+        // ---- oracles
+        struct stat st; bool isdir = stat(arg, &st) == 0 && S_ISDIR(st.st_mode);
+        if (ret && !isdir) fail(FKEY("returned-true-but-no-directory"), "create returned true but stat says \"%s\" is not a directory afterwards", arg);
+        if (!ret && isdir) fail(FKEY("returned-false-but-directory-exists"), "create returned false but \"%s\" is a directory afterwards", arg);
+        bool onlyAdds = act < RA_FILE;
+        if (strict && onlyAdds && !ret) fail(FKEY("missing-parents-not-created"), "create failed although every existing prefix of \"%s\" is a directory and the other process only created directories on the way to it", arg);
+        if (ret) for (int i = 0; i < m; ++i) { if (stat(phys[i], &st) != 0 || !S_ISDIR(st.st_mode)) fail(FKEY("parent-missing-after-true"), "create returned true but \"%s\" is not a directory", phys[i]); cnt("race_parents_checked"); }
+        if (act < RA_RM_PARENT) {
+          if (g_race.file[0] && unlink(g_race.file) != 0) fail(FKEY("other-process-file-gone"), "the file the other process placed at \"%s\" has disappeared", g_race.file);
+          snapshot(w, after); long dummy = 0; compareSnap(before, after, "", false, made, dummy);
+        }
+        { setctxf("Directory.exists/after-create,%s", isdir ? "directory" : "no-directory"); hist.addf("Directory::exists(\"%s\")\n", arg);
+          bool ex = Directory::exists(String(arg, strlen(arg)));
+          if (ex != isdir) fail(FKEY("result"), "exists returned %d but stat says \"%s\" is %s", (int)ex, arg, isdir ? "a directory" : "not a directory");
+          cnt("op_exists_dir"); }
+        // ---- evidence
+        cnt("ops"); cnt("op_create"); cnt(ret ? "create_true" : "create_false"); cnt("race_trials"); setItem("race_scenarios", cls);
+        if (act >= 0) {
+          if (g_race.fired) {
+            ++firedHere; cnt("race_interference_done"); cnt(onlyAdds ? "race_creator_interference_done" : act == RA_FILE ? "race_file_interference_done" : "race_remover_interference_done");
+            char it[96]; snprintf(it, sizeof it, "%s before %s", RACT[act], fsshim::tracedName(g_race.firedFn)); setItem("race_points", it);
+            if (g_race.firedFn == fsshim::T_MKDIR && onlyAdds) cnt("race_directory_made_between_check_and_mkdir");
+            if (onlyAdds && strict) cnt("race_creator_interference_with_creatable_target");
+            fp = mix(fp, (u64)(act * 64 + k) * 2 + (ret ? 1 : 0));
+          } else cnt(k > g_race.steps ? "race_call_finished_before_step" : "race_interference_nothing_to_do");
+        }
+      }
+    }
+    if (chdir(scratch::root) != 0) harnessBug("chdir back");
+    scratch::rmrf(caseRoot);
+    if (idx % 211 == 0) sample("%.1200s", hist.c());
+    endCase(fp, firedHere > 0);
+  }
+  fsshim::clearStepHook();
+}
+
+// =================================================================================================== create-threads: really concurrent Directory::create calls
+// N threads, released together, call Directory::create on the same deep path / on siblings below a shared missing parent / on prefixes of one chain. Nobody removes
+// anything, so every single call has to return true and its directory has to exist afterwards. (Which interleavings occur is up to the scheduler: a supplement
+// to create-race, never a timing-dependent verdict - a correct library passes under every schedule.)
+#include <pthread.h>
+#include <sched.h>
+enum { THR_N = 4 };
+struct ThrShared { int go; int awake; int done; int stop; char path[THR_N][400]; int result[THR_N]; };
+static ThrShared g_thr;
+static inline void spinUntil(int* v, int want) { for (long i = 0; __atomic_load_n(v, __ATOMIC_ACQUIRE) != want; ++i) if (i > 2000) sched_yield(); }
+static void* thrMain(void* a) {
+  int me = (int)(intptr_t)a;
+  for (int round = 1;; ++round) {
+    spinUntil(&g_thr.go, round);
+    if (__atomic_load_n(&g_thr.stop, __ATOMIC_ACQUIRE)) return 0;
+    __atomic_add_fetch(&g_thr.awake, 1, __ATOMIC_ACQ_REL); spinUntil(&g_thr.awake, THR_N * round);   // all threads are running before anybody starts
+    { String s(g_thr.path[me], strlen(g_thr.path[me])); g_thr.result[me] = Directory::create(s) ? 1 : 0; }
+    __atomic_add_fetch(&g_thr.done, 1, __ATOMIC_ACQ_REL);
+  }
+}
+static void createThreadCases() {
+  fsshim::setPrefix(scratch::root);
+  char kbuf[300];
+  pthread_t th[THR_N]; memset(&g_thr, 0, sizeof g_thr); int round = 0;
+  for (int i = 0; i < THR_N; ++i) if (pthread_create(&th[i], 0, thrMain, (void*)(intptr_t)i) != 0) harnessBug("pthread_create");
+  static const char* const TCLS[] = { "same-deep-path", "siblings-below-shared-missing-parent", "same-single-component", "prefixes-of-one-chain" };
+  for (long idx = opts.start; idx < opts.start + opts.cases; ++idx) {
+    if (!mine(idx)) continue;
+    beginCase(idx);
+    Rng r(opts.seed, 1908, (u64)idx);
+    char caseRoot[200]; snprintf(caseRoot, sizeof caseRoot, "%s/P%ld", scratch::root, idx); scratch::rmrf(caseRoot);
+    if (mkdir(caseRoot, 0700) != 0 || chdir(caseRoot) != 0) harnessBug("case root %s: %s", caseRoot, strerror(errno));
+    bool absolute = r.chance(1, 3); u64 fp = 0;
+    hist.addf("# create-threads case in %s (cwd): %d threads released together per round\n", caseRoot, (int)THR_N);
+    size_t mark = hist.n;
+    for (int o = 0; o < 10; ++o) {
+      hist.n = mark; if (hist.d) hist.d[hist.n] = 0;
+      int kind = (int)r.below(4); int depth = (int)r.range(2, 4);
+      for (int i = 0; i < THR_N; ++i) {
+        Text p; if (absolute) { p.add(caseRoot); p.add("/"); } p.addf("r%d", o);
+        switch (kind) {
+        case 0: for (int d = 1; d < depth; ++d) p.addf("/c%d", d); break;
+        case 1: for (int d = 1; d < depth; ++d) p.addf("/c%d", d); p.addf("/s%d", i); break;
+        case 2: break;
+        default: for (int d = 1; d < 1 + (i % depth); ++d) p.addf("/c%d", d); break;
+        }
+        snprintf(g_thr.path[i], sizeof g_thr.path[i], "%s", p.c()); g_thr.result[i] = -1;
+        hist.addf("thread %d: Directory::create(\"%s\")\n", i, g_thr.path[i]);
+      }
+      setctxf("Directory.create/concurrent,%s", TCLS[kind]);
+      ++round; __atomic_store_n(&g_thr.go, round, __ATOMIC_RELEASE);
+      for (long i = 0; __atomic_load_n(&g_thr.done, __ATOMIC_ACQUIRE) != THR_N * round; ++i) if (i > 200) sched_yield();
+      for (int i = 0; i < THR_N; ++i) {
+        struct stat st; bool isdir = stat(g_thr.path[i], &st) == 0 && S_ISDIR(st.st_mode);
+        hist.addf("thread %d: = %s, directory afterwards: %s\n", i, g_thr.result[i] ? "true" : "false", isdir ? "yes" : "no");
+        if (g_thr.result[i] && !isdir) fail(FKEY("returned-true-but-no-directory"), "thread %d: create returned true but \"%s\" is not a directory afterwards", i, g_thr.path[i]);
+        if (!g_thr.result[i] && isdir) fail(FKEY("returned-false-but-directory-exists"), "thread %d: create returned false but \"%s\" is a directory afterwards (%d threads created overlapping paths at the same time)", i, g_thr.path[i], (int)THR_N);
+        if (!g_thr.result[i]) fail(FKEY("missing-parents-not-created"), "thread %d: create of \"%s\" failed although nothing is in the way and the other threads only create directories", i, g_thr.path[i]);
+        cnt("concurrent_create_calls"); cnt("ops"); cnt("op_create"); cnt("create_true");
+      }
+      cnt("concurrent_create_rounds"); setItem("concurrent_create_classes", TCLS[kind]); fp = mix(fp, (u64)(kind * 8 + depth));
+    }
+    if (chdir(scratch::root) != 0) harnessBug("chdir back");
+    scratch::rmrf(caseRoot);
+    if (idx % 211 == 0) sample("%.600s", hist.c());
+    endCase(mix(fp, (u64)idx), true);
+  }
+  __atomic_store_n(&g_thr.stop, 1, __ATOMIC_RELEASE); ++round; __atomic_store_n(&g_thr.go, round, __ATOMIC_RELEASE);
+  for (int i = 0; i < THR_N; ++i) pthread_join(th[i], 0);
+}
+
 // =================================================================================================== probes (minimal reproducers of the defects this check found)
 static int probe(const char* k) {
   if (!strncmp(k, "File.simplifyPath", 17)) { g_histMark = 0; checkUnary("/", 1); checkUnary("/a/..", 5); return 0; }
@@ -837,6 +1062,8 @@ static int worker(int argc, char** argv) {
   else if (!strcmp(m, "files")) fileHistories(false);
   else if (!strcmp(m, "files-alias")) fileHistories(true);
   else if (!strcmp(m, "trees")) treeCases();
+  else if (!strcmp(m, "create-race")) createRaceCases();
+  else if (!strcmp(m, "create-threads")) createThreadCases();
   else harnessBug("unknown mode %s", m);
   cnt("path_inputs", g_pathChecks);
   cnt("faults_injected", fsshim::totalInjected());
